@@ -60,10 +60,11 @@ def main():
         checks = sys.argv[sys.argv.index("--checks") + 1].split(",")
     # the agent's deliverables are moved out of the worktree first (a seed/ directory with *_test.go
     # files would be picked up by `go test ./...`)
-    outroot = os.path.join("/tmp/seed/out", prop)
+    outbase = os.path.join(os.path.dirname(os.path.abspath(wt)), "out")
+    outroot = os.path.join(outbase, prop)
     if os.path.isdir(os.path.join(wt, "seed")):
         shutil.rmtree(outroot, ignore_errors=True)
-        os.makedirs("/tmp/seed/out", exist_ok=True)
+        os.makedirs(outbase, exist_ok=True)
         shutil.move(os.path.join(wt, "seed"), outroot)
     sd = os.path.join(outroot, variant)
     meta = {"property": prop, "variant": variant, "evaluated_at": time.strftime("%Y-%m-%dT%H:%M:%SZ", time.gmtime())}
@@ -158,7 +159,10 @@ def main():
     meta["inconclusive"] = sorted(k for k, v in results.items() if v["exit"] == 2)
 
     # 3. store
-    dst = os.path.join(DEST, "%s-%s" % (prop, variant))
+    name = "%s-%s" % (prop, variant)
+    if "--name" in sys.argv:
+        name = sys.argv[sys.argv.index("--name") + 1]
+    dst = os.path.join(DEST, name)
     os.makedirs(dst, exist_ok=True)
     prev = os.path.join(dst, "meta.json")
     if os.path.exists(prev):
